@@ -14,6 +14,7 @@ import HttpServeModel.Model.Chunker
 import HttpServeModel.Model.Sched
 import HttpServeModel.Model.File
 import HttpServeModel.Model.Dir
+import HttpServeModel.Model.Inflate
 
 open HS
 
@@ -187,13 +188,29 @@ def cmdBody (toks : List String) : Option String := do
       | .multi m => ",".intercalate (m.calls.map fun (a, b) => s!"{a}-{b}")
       | _ => ""
     pure (" | ".intercalate (tr.map fun (h, e, o) =>
-        s!"{h} {if e then 1 else 0} {showOut isOnce o}") ++ " calls=" ++ calls)
+        s!"{h} {if e then 1 else 0} {showOut isOnce o}") ++ " calls=" ++ calls ++
+      s!" over={final.overpolls}")
 
 def cmdGzipQ (toks : List String) : Option String := do
   let ae ← optBytes (← kv toks "ae")
   match shouldGzip ae with
   | .panic => pure "PANIC"
   | .ok b => pure (if b then "T" else "F")
+
+/-- `GUNZIP mode=full|avail data=<hex>`: the model's gzip decoder on bytes the real encoder
+produced. `full`: exactly one member → `some len=<n> crc=<crc-32 of the content>` / `none`;
+`avail`: the streaming view → `ok=<0|1> len=<n> crc=<…>` of what has been produced so far. -/
+def cmdGunzip (toks : List String) : Option String := do
+  let mode ← kv toks "mode"
+  let data ← unhex (← kv toks "data")
+  if mode == "full" then
+    match Inflate.gunzip data with
+    | some out => pure s!"some len={out.length} crc={Inflate.crc32 out}"
+    | none => pure "none"
+  else if mode == "avail" then
+    let (ok, out) := Inflate.gunzipAvail data
+    pure s!"ok={if ok then 1 else 0} len={out.length} crc={Inflate.crc32 out}"
+  else none
 
 def cmdSBuild (toks : List String) : Option String := do
   let head := (← kv toks "head") == "1"
@@ -407,6 +424,7 @@ def handle (ctx : DirCtx) (line : String) : DirCtx × String :=
   | "SERVE" :: rest => (ctx, (cmdServe rest).getD "BAD-REQUEST")
   | "BODY" :: rest => (ctx, (cmdBody rest).getD "BAD-REQUEST")
   | "GZIPQ" :: rest => (ctx, (cmdGzipQ rest).getD "BAD-REQUEST")
+  | "GUNZIP" :: rest => (ctx, (cmdGunzip rest).getD "BAD-REQUEST")
   | "SBUILD" :: rest => (ctx, (cmdSBuild rest).getD "BAD-REQUEST")
   | "CHUNK" :: rest => (ctx, (cmdChunk rest).getD "BAD-REQUEST")
   | "SCHED" :: rest => (ctx, (cmdSched rest).getD "BAD-REQUEST")
